@@ -122,18 +122,24 @@ def main(argv=None):
     print(json.dumps(out, sort_keys=True, default=repr))
 
 
+KEEP = []  # everything a history built for configuration B stays referenced: B's objects coexist with A's
+
+
 def apply_history(op, a, raw, cfg, holder):
     from semantiva.inspection import build_inspection_payload
     from semantiva.pipeline import Pipeline
 
     if op in ("inspectB", "constructB", "runB") and a.other:
         rawb, cfgb = load(a.other)
+        KEEP.append((rawb, cfgb))
         if op == "inspectB":
-            build_inspection_payload(rawb)
+            KEEP.append(build_inspection_payload(rawb))
         elif op == "constructB":
-            Pipeline(cfgb.nodes)
+            KEEP.append(Pipeline(cfgb.nodes))
         else:
-            traced_run(cfgb, Pipeline(cfgb.nodes))
+            pb = Pipeline(cfgb.nodes)
+            KEEP.append(pb)
+            traced_run(cfgb, pb)
     elif op == "inspectA":
         build_inspection_payload(raw)
     elif op == "runA":
